@@ -7,6 +7,7 @@ import (
 	"go/types"
 	"sort"
 	"strings"
+	"verifcheck/internal/core"
 
 	"golang.org/x/tools/go/ssa"
 )
@@ -63,6 +64,89 @@ func Fingerprint(f *ssa.Function) ([]string, error) {
 				lines = append(lines, strings.Join(sortedCopy(conds), " && ")+" => "+strings.Join(effects, "; ")+" ; return ("+strings.Join(rs, ", ")+")")
 				return nil
 			case *ssa.If:
+				if hc, t, ok := helperCall(x.Cond, true); ok {
+					// a new boolean helper: one path of the caller per path of the helper
+					tp, ok1 := fp.helperPaths(hc.Call.StaticCallee(), hc.Call.Args, t)
+					fpths, ok2 := fp.helperPaths(hc.Call.StaticCallee(), hc.Call.Args, !t)
+					if ok1 && ok2 {
+						for _, pa := range tp {
+							atoms, res := splitHelperPath(pa)
+							if fp.override == nil {
+								fp.override = map[ssa.Value]string{}
+							}
+							prev, had := fp.override[hc]
+							fp.override[hc] = res
+							err := walk(b.Succs[0], b, append(append([]string{}, conds...), atoms...), append([]string{}, effects...), visited)
+							if had {
+								fp.override[hc] = prev
+							} else {
+								delete(fp.override, hc)
+							}
+							if err != nil {
+								return err
+							}
+						}
+						for _, pa := range fpths {
+							atoms, res := splitHelperPath(pa)
+							if fp.override == nil {
+								fp.override = map[ssa.Value]string{}
+							}
+							prev, had := fp.override[hc]
+							fp.override[hc] = res
+							err := walk(b.Succs[1], b, append(append([]string{}, conds...), atoms...), append([]string{}, effects...), visited)
+							if had {
+								fp.override[hc] = prev
+							} else {
+								delete(fp.override, hc)
+							}
+							if err != nil {
+								return err
+							}
+						}
+						return nil
+					}
+				}
+				if hc, idx, isNil, ok := helperNilTest(x.Cond, true); ok {
+					tp, ok1 := fp.helperPathsOn(hc.Call.StaticCallee(), hc.Call.Args, idx, true, isNil)
+					fpths, ok2 := fp.helperPathsOn(hc.Call.StaticCallee(), hc.Call.Args, idx, true, !isNil)
+					if ok1 && ok2 {
+						for _, pa := range tp {
+							atoms, res := splitHelperPath(pa)
+							if fp.override == nil {
+								fp.override = map[ssa.Value]string{}
+							}
+							prev, had := fp.override[hc]
+							fp.override[hc] = res
+							err := walk(b.Succs[0], b, append(append([]string{}, conds...), atoms...), append([]string{}, effects...), visited)
+							if had {
+								fp.override[hc] = prev
+							} else {
+								delete(fp.override, hc)
+							}
+							if err != nil {
+								return err
+							}
+						}
+						for _, pa := range fpths {
+							atoms, res := splitHelperPath(pa)
+							if fp.override == nil {
+								fp.override = map[ssa.Value]string{}
+							}
+							prev, had := fp.override[hc]
+							fp.override[hc] = res
+							err := walk(b.Succs[1], b, append(append([]string{}, conds...), atoms...), append([]string{}, effects...), visited)
+							if had {
+								fp.override[hc] = prev
+							} else {
+								delete(fp.override, hc)
+							}
+							if err != nil {
+								return err
+							}
+						}
+						return nil
+					}
+				}
 				c := fp.cond(x.Cond, true)
 				nc := fp.cond(x.Cond, false)
 				if err := walk(b.Succs[0], b, append(append([]string{}, conds...), c...), append([]string{}, effects...), visited); err != nil {
@@ -111,6 +195,347 @@ type fingerprinter struct {
 	f     *ssa.Function
 	pred  map[*ssa.BasicBlock]*ssa.BasicBlock
 	spill map[*ssa.Alloc]ssa.Value
+	// subst renders the parameters of f as the given strings (the arguments of
+	// a call site, rendered in the caller's frame): virtual inlining of helpers
+	// that did not exist on the reference tree (core.IsNewFunc).
+	subst map[*ssa.Parameter]string
+	depth int
+	// override: the rendering of a helper call's results on the helper path
+	// currently being walked (virtual inlining of multi-path helpers)
+	override map[ssa.Value]string
+}
+
+// isNewHelper: f is a declared function that did not exist on the reference tree.
+func isNewHelper(f *ssa.Function) bool {
+	if f == nil || len(f.Blocks) == 0 || f.Synthetic != "" {
+		return false
+	}
+	obj, ok := f.Object().(*types.Func)
+	return ok && core.IsNewFunc(obj)
+}
+
+// child makes the fingerprinter that renders callee g as inlined at call.
+func (fp *fingerprinter) child(g *ssa.Function, args []ssa.Value) *fingerprinter {
+	c := &fingerprinter{short: fp.short, f: g, pred: map[*ssa.BasicBlock]*ssa.BasicBlock{}, spill: map[*ssa.Alloc]ssa.Value{}, subst: map[*ssa.Parameter]string{}, depth: fp.depth + 1}
+	for i, p := range g.Params {
+		if i < len(args) {
+			c.subst[p] = fp.expr(args[i])
+		}
+	}
+	registerSpills(c, g)
+	return c
+}
+
+func registerSpills(fp *fingerprinter, f *ssa.Function) {
+	for _, b := range f.Blocks {
+		for _, i2 := range b.Instrs {
+			if st, ok := i2.(*ssa.Store); ok {
+				if _, isParam := st.Val.(*ssa.Parameter); isParam {
+					if al, ok := st.Addr.(*ssa.Alloc); ok && al.Comment == st.Val.Name() {
+						fp.spill[al] = st.Val
+					}
+				}
+			}
+		}
+	}
+}
+
+// pureStraightLine: g is one block ending in a return, without stores (other
+// than parameter spills), map updates, sends, go/defer.
+func pureStraightLine(g *ssa.Function) (*ssa.Return, bool) {
+	if len(g.Blocks) != 1 {
+		return nil, false
+	}
+	var ret *ssa.Return
+	for _, in := range g.Blocks[0].Instrs {
+		switch x := in.(type) {
+		case *ssa.Store:
+			if _, isParam := x.Val.(*ssa.Parameter); isParam {
+				if al, ok := x.Addr.(*ssa.Alloc); ok && al.Comment == x.Val.Name() {
+					continue
+				}
+			}
+			return nil, false
+		case *ssa.MapUpdate, *ssa.Send, *ssa.Go, *ssa.Defer, *ssa.Panic:
+			return nil, false
+		case *ssa.Return:
+			ret = x
+		}
+	}
+	return ret, ret != nil
+}
+
+// helperPaths: the path conditions (conjunct lists) of the loop-free boolean
+// helper g, called with args, that yield the given truth value; ok is false
+// when g cannot be expanded (loops, side effects, too many paths).
+func (fp *fingerprinter) helperPaths(g *ssa.Function, args []ssa.Value, truth bool) ([][]string, bool) {
+	return fp.helperPathsOn(g, args, 0, false, truth)
+}
+
+// helperPathsOn: like helperPaths for result number idx; with nilMode the paths
+// are those on which the (error or pointer) result is nil (truth) or non-nil
+// (!truth); otherwise the result is boolean and must equal truth.
+func (fp *fingerprinter) helperPathsOn(g *ssa.Function, args []ssa.Value, idx int, nilMode bool, truth bool) ([][]string, bool) {
+	if fp.depth >= 3 || len(g.Blocks) > 40 {
+		return nil, false
+	}
+	for _, b := range g.Blocks {
+		for _, in := range b.Instrs {
+			switch x := in.(type) {
+			case *ssa.Store:
+				if _, isParam := x.Val.(*ssa.Parameter); isParam {
+					if al, ok := x.Addr.(*ssa.Alloc); ok && al.Comment == x.Val.Name() {
+						continue
+					}
+				}
+				return nil, false
+			case *ssa.MapUpdate, *ssa.Send, *ssa.Go, *ssa.Defer:
+				return nil, false
+			}
+		}
+	}
+	c := fp.child(g, args)
+	var paths [][]string
+	bad := false
+	var walk func(b, pred *ssa.BasicBlock, conds []string, visited map[*ssa.BasicBlock]bool)
+	walk = func(b, pred *ssa.BasicBlock, conds []string, visited map[*ssa.BasicBlock]bool) {
+		if bad || len(paths) > 64 {
+			bad = true
+			return
+		}
+		if visited[b] {
+			bad = true // loop
+			return
+		}
+		visited[b] = true
+		defer delete(visited, b)
+		c.pred[b] = pred
+		switch x := b.Instrs[len(b.Instrs)-1].(type) {
+		case *ssa.Return:
+			if idx >= len(x.Results) || (!nilMode && len(x.Results) != 1) {
+				bad = true
+				return
+			}
+			var rc []string
+			if nilMode {
+				rv := x.Results[idx]
+				if ph, ok := rv.(*ssa.Phi); ok {
+					if pv := c.phiValue(ph); pv != nil {
+						rv = pv
+					}
+				}
+				if k, ok := rv.(*ssa.Const); ok {
+					if (k.Value == nil) != truth {
+						return // this path yields the other outcome
+					}
+				} else if _, isMI := rv.(*ssa.MakeInterface); isMI {
+					if truth {
+						return // a freshly built error value: never nil
+					}
+				} else if call, isCall := rv.(*ssa.Call); isCall && call.Call.StaticCallee() != nil && IsNonNilCtor(call.Call.StaticCallee()) {
+					if truth {
+						return
+					}
+				} else {
+					a, b := c.expr(rv), "nil"
+					if b < a {
+						a, b = b, a
+					}
+					op := "=="
+					if !truth {
+						op = "!="
+					}
+					rc = []string{fmt.Sprintf("%s %s %s", a, op, b)}
+				}
+			} else {
+				rc = c.cond(x.Results[0], truth)
+				for _, a := range rc {
+					if a == "false" {
+						return // this path yields the other truth value
+					}
+				}
+			}
+			var rs []string
+			for _, rv := range x.Results {
+				rs = append(rs, c.expr(rv))
+			}
+			pa := sortedCopy(append(append([]string{}, conds...), rc...))
+			paths = append(paths, append(pa, "\x01"+strings.Join(rs, "\x00")))
+		case *ssa.If:
+			walk(b.Succs[0], b, append(append([]string{}, conds...), c.cond(x.Cond, true)...), visited)
+			walk(b.Succs[1], b, append(append([]string{}, conds...), c.cond(x.Cond, false)...), visited)
+		case *ssa.Jump:
+			walk(b.Succs[0], b, conds, visited)
+		case *ssa.Panic:
+			// no value
+		default:
+			bad = true
+		}
+	}
+	walk(g.Blocks[0], nil, nil, map[*ssa.BasicBlock]bool{})
+	if bad {
+		return nil, false
+	}
+	return paths, true
+}
+
+// helperCond: the conjuncts that hold on EVERY path of g yielding truth.
+func (fp *fingerprinter) helperCond(g *ssa.Function, args []ssa.Value, truth bool) ([]string, bool) {
+	paths, ok := fp.helperPaths(g, args, truth)
+	if !ok {
+		return nil, false
+	}
+	return intersectPaths(paths)
+}
+
+// splitHelperPath separates the atoms of a helper path from the rendering of
+// the helper's results on that path.
+func splitHelperPath(pa []string) ([]string, string) {
+	var atoms []string
+	res := ""
+	for _, a := range pa {
+		if strings.HasPrefix(a, "\x01") {
+			res = a[1:]
+			continue
+		}
+		atoms = append(atoms, a)
+	}
+	return atoms, res
+}
+
+func intersectPaths(paths [][]string) ([]string, bool) {
+	if len(paths) == 0 {
+		return []string{"false"}, true
+	}
+	count := map[string]int{}
+	for _, p := range paths {
+		for _, a := range p {
+			if strings.HasPrefix(a, "\x01") {
+				continue
+			}
+			count[a]++
+		}
+	}
+	var out []string
+	for a, n := range count {
+		if n == len(paths) {
+			out = append(out, a)
+		}
+	}
+	if len(out) == 0 {
+		return nil, false
+	}
+	return sortedCopy(out), true
+}
+
+// plainCmp renders a comparison without looking into helpers.
+func (fp *fingerprinter) plainCmp(x *ssa.BinOp, truth bool) string {
+	op := x.Op
+	if !truth {
+		op = negate(op)
+	}
+	a, b := fp.expr(x.X), fp.expr(x.Y)
+	switch op {
+	case token.GTR:
+		return fmt.Sprintf("%s < %s", b, a)
+	case token.GEQ:
+		return fmt.Sprintf("%s <= %s", b, a)
+	case token.EQL, token.NEQ:
+		if b < a {
+			a, b = b, a
+		}
+	}
+	return fmt.Sprintf("%s %s %s", a, op, b)
+}
+
+// IsNonNilCtor: f builds an error and never returns nil (newError, errorf, ...):
+// decided structurally, every return of f yields a MakeInterface or a call of
+// such a constructor.
+func IsNonNilCtor(f *ssa.Function) bool {
+	return nonNilCtor(f, 0)
+}
+
+func nonNilCtor(f *ssa.Function, depth int) bool {
+	if f == nil || len(f.Blocks) == 0 || depth > 3 || f.Signature.Results().Len() != 1 {
+		return false
+	}
+	n := 0
+	for _, b := range f.Blocks {
+		r, ok := b.Instrs[len(b.Instrs)-1].(*ssa.Return)
+		if !ok {
+			continue
+		}
+		n++
+		switch x := r.Results[0].(type) {
+		case *ssa.MakeInterface:
+		case *ssa.Call:
+			if !nonNilCtor(x.Call.StaticCallee(), depth+1) {
+				return false
+			}
+		default:
+			return false
+		}
+	}
+	return n > 0
+}
+
+// helperNilTest: v is `h(...) == nil` / `!= nil` (or on one result of h) for a
+// new helper h; returns the call, the result index and whether truth of v means
+// "result is nil".
+func helperNilTest(v ssa.Value, truth bool) (*ssa.Call, int, bool, bool) {
+	for {
+		if u, ok := v.(*ssa.UnOp); ok && u.Op == token.NOT {
+			v, truth = u.X, !truth
+			continue
+		}
+		break
+	}
+	bo, ok := v.(*ssa.BinOp)
+	if !ok || (bo.Op != token.EQL && bo.Op != token.NEQ) {
+		return nil, 0, false, false
+	}
+	side := func(a, b ssa.Value) (*ssa.Call, int, bool) {
+		if k, ok := b.(*ssa.Const); !ok || k.Value != nil {
+			return nil, 0, false
+		}
+		idx := 0
+		if ex, ok := a.(*ssa.Extract); ok {
+			idx = ex.Index
+			a = ex.Tuple
+		}
+		c, ok := a.(*ssa.Call)
+		if !ok || !isNewHelper(c.Call.StaticCallee()) {
+			return nil, 0, false
+		}
+		return c, idx, true
+	}
+	c, idx, ok := side(bo.X, bo.Y)
+	if !ok {
+		c, idx, ok = side(bo.Y, bo.X)
+	}
+	if !ok {
+		return nil, 0, false, false
+	}
+	isNil := truth
+	if bo.Op == token.NEQ {
+		isNil = !truth
+	}
+	return c, idx, isNil, true
+}
+
+// helperCall: v (possibly negated) is a call of an expandable new helper.
+func helperCall(v ssa.Value, truth bool) (*ssa.Call, bool, bool) {
+	for {
+		if u, ok := v.(*ssa.UnOp); ok && u.Op == token.NOT {
+			v, truth = u.X, !truth
+			continue
+		}
+		break
+	}
+	if c, ok := v.(*ssa.Call); ok && isNewHelper(c.Call.StaticCallee()) {
+		return c, truth, true
+	}
+	return nil, truth, false
 }
 
 func typeName(t types.Type) string {
@@ -130,6 +555,14 @@ func (fp *fingerprinter) cond(v ssa.Value, truth bool) []string {
 			return fp.cond(x.X, !truth)
 		}
 	case *ssa.BinOp:
+		if hc, idx, isNil, ok := helperNilTest(x, truth); ok {
+			if paths, ok := fp.helperPathsOn(hc.Call.StaticCallee(), hc.Call.Args, idx, true, isNil); ok {
+				if atoms, ok := intersectPaths(paths); ok {
+					// keep the test itself as well: rules may look for it by name
+					return append(atoms, fp.plainCmp(x, truth))
+				}
+			}
+		}
 		switch x.Op {
 		case token.EQL, token.NEQ, token.LSS, token.LEQ, token.GTR, token.GEQ:
 			op := x.Op
@@ -148,6 +581,12 @@ func (fp *fingerprinter) cond(v ssa.Value, truth bool) []string {
 				}
 			}
 			return []string{fmt.Sprintf("%s %s %s", a, op, b)}
+		}
+	case *ssa.Call:
+		if g := x.Call.StaticCallee(); isNewHelper(g) {
+			if atoms, ok := fp.helperCond(g, x.Call.Args, truth); ok {
+				return atoms
+			}
 		}
 	case *ssa.Phi:
 		// value of the phi on this path
@@ -183,7 +622,7 @@ func (fp *fingerprinter) addr(v ssa.Value) string {
 	switch x := v.(type) {
 	case *ssa.FieldAddr:
 		if f := fieldVar(x); f != nil {
-			return fp.addrBase(x.X) + "." + f.Name()
+			return fp.addrBase(x.X) + "." + core.FieldName(f)
 		}
 	case *ssa.IndexAddr:
 		return fp.addrBase(x.X) + "[" + fp.expr(x.Index) + "]"
@@ -216,10 +655,26 @@ func (fp *fingerprinter) addrBase(v ssa.Value) string {
 var commutative = map[token.Token]bool{token.ADD: true, token.MUL: true, token.AND: true, token.OR: true, token.XOR: true}
 
 func (fp *fingerprinter) expr(v ssa.Value) string {
+	if fp.override != nil {
+		if s, ok := fp.override[v]; ok {
+			return s
+		}
+		if ex, ok := v.(*ssa.Extract); ok {
+			if s, ok := fp.override[ex.Tuple]; ok {
+				parts := strings.Split(s, "\x00")
+				if ex.Index < len(parts) {
+					return parts[ex.Index]
+				}
+			}
+		}
+	}
 	switch x := v.(type) {
 	case nil:
 		return "<nil>"
 	case *ssa.Parameter:
+		if sub, ok := fp.subst[x]; ok {
+			return sub
+		}
 		for i, p := range fp.f.Params {
 			if p == x {
 				return fmt.Sprintf("p%d", i)
@@ -273,7 +728,7 @@ func (fp *fingerprinter) expr(v ssa.Value) string {
 		return "iface(" + fp.expr(x.X) + ")"
 	case *ssa.Field:
 		if f := FieldOfField(x); f != nil {
-			return fp.expr(x.X) + "." + f.Name()
+			return fp.expr(x.X) + "." + core.FieldName(f)
 		}
 	case *ssa.FieldAddr:
 		return "&" + fp.addr(x)
@@ -296,6 +751,13 @@ func (fp *fingerprinter) expr(v ssa.Value) string {
 		}
 		return fmt.Sprintf("%s[%s:%s%s]", fp.addrBase(x.X), lo, hi, mx)
 	case *ssa.Extract:
+		if call, ok := x.Tuple.(*ssa.Call); ok && fp.depth < 3 {
+			if g := call.Call.StaticCallee(); isNewHelper(g) {
+				if ret, ok := pureStraightLine(g); ok && x.Index < len(ret.Results) {
+					return fp.child(g, call.Call.Args).expr(ret.Results[x.Index])
+				}
+			}
+		}
 		return fmt.Sprintf("%s#%d", fp.expr(x.Tuple), x.Index)
 	case *ssa.Phi:
 		if p := fp.phiValue(x); p != nil {
@@ -308,6 +770,11 @@ func (fp *fingerprinter) expr(v ssa.Value) string {
 		}
 		return "&" + x.Name()
 	case *ssa.Call:
+		if g := x.Call.StaticCallee(); isNewHelper(g) && fp.depth < 3 {
+			if ret, ok := pureStraightLine(g); ok && len(ret.Results) == 1 {
+				return fp.child(g, x.Call.Args).expr(ret.Results[0])
+			}
+		}
 		var args []string
 		for _, a := range x.Call.Args {
 			args = append(args, fp.expr(a))
@@ -359,7 +826,7 @@ func DomAtoms(in ssa.Instruction) []string {
 	for _, g := range Guards(in.Block()) {
 		out = append(out, fp.cond(g.Cond, g.True)...)
 	}
-	return sortedCopy(out)
+	return DeriveAtoms(out)
 }
 
 // RenderValue renders a value in fingerprint normal form (phis are opaque).
@@ -408,10 +875,20 @@ type Anchor struct {
 }
 
 // Anchors lists the calls in f (in block/instruction order) with their
-// dominating atoms.
+// dominating atoms. Calls made inside helpers that did not exist on the
+// reference tree are listed as well, at the position of the helper call, with
+// arguments rendered in f's frame and the atoms of the call site added
+// (virtual inlining): extracting code into a helper does not hide an anchor.
 func Anchors(f *ssa.Function) []Anchor {
 	var out []Anchor
 	count := map[string]int{}
+	root := &fingerprinter{short: true, f: f, pred: map[*ssa.BasicBlock]*ssa.BasicBlock{}, spill: map[*ssa.Alloc]ssa.Value{}}
+	registerSpills(root, f)
+	collectAnchors(root, f, nil, &out, count, map[*ssa.Function]bool{f: true})
+	return out
+}
+
+func collectAnchors(fp *fingerprinter, f *ssa.Function, extra []string, out *[]Anchor, count map[string]int, busy map[*ssa.Function]bool) {
 	for _, b := range f.Blocks {
 		for _, in := range b.Instrs {
 			ci, ok := in.(ssa.CallInstruction)
@@ -429,12 +906,148 @@ func Anchors(f *ssa.Function) []Anchor {
 				}
 			}
 			count[name]++
+			local := &fingerprinter{short: true, f: f, pred: map[*ssa.BasicBlock]*ssa.BasicBlock{}, spill: fp.spill, subst: fp.subst, depth: fp.depth}
 			var args []string
 			for _, a := range ci.Common().Args {
-				args = append(args, RenderValue(f, a))
+				args = append(args, local.expr(a))
 			}
-			out = append(out, Anchor{Callee: name, Ordinal: count[name], Instr: in, Args: args, Atoms: DomAtoms(in)})
+			var atoms []string
+			atoms = append(atoms, extra...)
+			for _, g := range Guards(in.Block()) {
+				atoms = append(atoms, local.cond(g.Cond, g.True)...)
+			}
+			atoms = DeriveAtoms(atoms)
+			*out = append(*out, Anchor{Callee: name, Ordinal: count[name], Instr: in, Args: args, Atoms: atoms})
+			if g := ci.Common().StaticCallee(); isNewHelper(g) && !busy[g] && fp.depth < 2 {
+				busy[g] = true
+				collectAnchors(local.child(g, ci.Common().Args), g, atoms, out, count, busy)
+				delete(busy, g)
+			}
 		}
 	}
-	return out
+}
+
+// splitTop splits a rendered comparison "A op B" at its top-level operator.
+func splitTop(a string) (string, string, string, bool) {
+	depth := 0
+	for i := 0; i < len(a); i++ {
+		switch a[i] {
+		case '(', '[':
+			depth++
+		case ')', ']':
+			depth--
+		case ' ':
+			if depth != 0 {
+				continue
+			}
+			for _, op := range []string{" == ", " != ", " <= ", " < "} {
+				if strings.HasPrefix(a[i:], op) {
+					return a[:i], strings.TrimSpace(op), a[i+len(op):], true
+				}
+			}
+		}
+	}
+	return "", "", "", false
+}
+
+// negAtom renders the negation of a rendered atom in the same normal form.
+func negAtom(a string) string {
+	if strings.HasPrefix(a, "!") {
+		return a[1:]
+	}
+	l, op, r, ok := splitTop(a)
+	if !ok {
+		return "!" + a
+	}
+	switch op {
+	case "==":
+		return l + " != " + r
+	case "!=":
+		return l + " == " + r
+	case "<":
+		return r + " <= " + l
+	case "<=":
+		return r + " < " + l
+	}
+	return "!" + a
+}
+
+func unparen(s string) (string, bool) {
+	if len(s) < 2 || s[0] != '(' || s[len(s)-1] != ')' {
+		return "", false
+	}
+	depth := 0
+	for i := 0; i < len(s); i++ {
+		switch s[i] {
+		case '(':
+			depth++
+		case ')':
+			depth--
+			if depth == 0 && i != len(s)-1 {
+				return "", false
+			}
+		}
+	}
+	return s[1 : len(s)-1], true
+}
+
+// DeriveAtoms closes a set of atoms under equalities between boolean
+// sub-conditions: from "(P) == (Q)" and P follows Q (and from not-P, not-Q); from
+// "(P) != (Q)" and P follows not-Q. Needed when a test `a == b` on two flags
+// replaces the nested tests of a and b.
+func DeriveAtoms(atoms []string) []string {
+	have := map[string]bool{}
+	for _, a := range atoms {
+		have[a] = true
+	}
+	for changed, rounds := true, 0; changed && rounds < 4; rounds++ {
+		changed = false
+		for a := range have {
+			l, op, r, ok := splitTop(a)
+			if !ok || (op != "==" && op != "!=") {
+				continue
+			}
+			p, ok1 := unparen(l)
+			q, ok2 := unparen(r)
+			if !ok1 || !ok2 {
+				continue
+			}
+			if _, _, _, isCmp := splitTop(p); !isCmp {
+				continue
+			}
+			if _, _, _, isCmp := splitTop(q); !isCmp {
+				continue
+			}
+			add := func(s string) {
+				if !have[s] {
+					have[s] = true
+					changed = true
+				}
+			}
+			same := op == "=="
+			pick := func(x string, pos bool) string {
+				if pos == same {
+					return x
+				}
+				return negAtom(x)
+			}
+			if have[p] {
+				add(pick(q, true))
+			}
+			if have[negAtom(p)] {
+				add(pick(q, false))
+			}
+			if have[q] {
+				add(pick(p, true))
+			}
+			if have[negAtom(q)] {
+				add(pick(p, false))
+			}
+		}
+	}
+	var out []string
+	for a := range have {
+		out = append(out, a)
+	}
+	return sortedCopy(out)
 }
